@@ -854,7 +854,8 @@ class SetIndex(Op):
         col = draw(s.sampled_from(cands))
         out = {"col": col, "drop": draw(s.sampled_from([True, True, False]))}
         # sorted=True is the user's assertion that the column is already sorted: only offered when it is
-        if ins[0][1].ordered and x[col].is_monotonic_increasing and draw(s.booleans()):
+        # (pandas_ok: after a partition selection the pandas value no longer shows the dask rows, e.g. repeated partitions)
+        if ins[0][1].ordered and ins[0][1].pandas_ok and x[col].is_monotonic_increasing and draw(s.booleans()):
             out["sorted"] = True
         return out
 
@@ -1389,7 +1390,7 @@ def precondition(opname, ins, args):
         x = vals[0]
         if len(x) == 0 or x[args["col"]].isna().any():
             return False
-        if args.get("sorted") and not (fl[0].ordered and x[args["col"]].is_monotonic_increasing):
+        if args.get("sorted") and not (fl[0].ordered and fl[0].pandas_ok and x[args["col"]].is_monotonic_increasing):
             return False
     if opname == "merge_index":
         a, b = vals
